@@ -32,6 +32,11 @@ def atomic_insertions(np):
                 # third request first
                 if others:
                     out.append([others[0]] * BIG + s)
+                    # both other requests inside the same window of y (e.g.
+                    # DELETE and re-creation of an entity between a writer's
+                    # look and its write)
+                    out.append([y] * i + [x] * BIG + [others[0]] * BIG +
+                               [y] * BIG)
     # dedupe
     seen, uniq = set(), []
     for s in out:
